@@ -191,3 +191,6 @@ fn c14_psk8_scale_points() {
     assert!((o[0] - (40.0 * a - 40.0)).abs() <= slack);
     kani::cover!(true);
 }
+
+// a concrete playback test printed by Kani for a failing harness of this module is replayed from here
+include!(concat!(env!("VERIF_KANI_GEN"), "/playback_c14.rs"));
